@@ -31,6 +31,9 @@ def run(chk, tier):
     for feats in configs_for(tier):
         prog = mir.Program(facts.load_mir(feats))
         check_roundtrip(chk, prog, prog.config)
+        # "decode(encode(r)) == r" is a statement in terms of ==: equality of registries and of everything in them is structural
+        from . import c12
+        c12.check_eq_ord(chk, prog, prog.config)
         check_purity(chk, prog, prog.config)
         check_string_owned(chk, prog, prog.config)
     # in a configuration without Decode nothing is claimed; assert that this is a cfg fact, not a silent gap
